@@ -8,11 +8,12 @@ Programs
 
       N   NOP                       D   .long <ref>            (data directive referencing a label)
       N3  NOP NOP NOP               Z   JZ <ref>               (falls through; rel8 or rel32 form by distance)
+      DZ  .long <ref> ; JZ <ref>    (the data word refers to a label that moves when the JZ of its own block settles)
       J   JMP <ref>   (ends a chain; rel8 or rel32 form by distance)          R   NOP ; RET   (ends a chain)
 
-  free block in {J, R}; inner chain block in {N, (N3), D, Z}; last chain block in {N, D, J}.  <ref> of block i is the
-  label of block (i + 1) mod m in text order (thorough: also the first label), so that every label is referenced
-  when reference-carrying bodies are chosen and distances are controlled by the pins.
+  free block in {J, R}; inner chain block in {N, D, Z, DZ} (quick: N, D, DZ); last chain block in {N, D, J}.  <ref> of block i is the
+  label of block (i + 1) mod m in text order for instructions and of block (i + 2) mod m for data words (thorough: also
+  "every reference names the first label"); distances are controlled by the pins.
   mips32: every branch is followed by its delay slot NOP and a terminating body by `.split` (parse_txt otherwise
   links the delay slot of an unconditional jump to the next label).
 
@@ -113,7 +114,7 @@ ARCHS = {
             "N": [_i("MOV R0, R0", "MOV", sizes=[(4, None)])],
             "N3": [_i("MOV R0, R0", "MOV", sizes=[(4, None)])] * 3,
             "D": [("d", ".long {ref}", 4)],
-            "Z": [_i("BEQ {ref}", "B", True, [(4, None)])],
+            "Z": [_i("BEQ {ref}", "BEQ", True, [(4, None)])],
             "J": [_i("B {ref}", "B", True, [(4, None)])],
             "R": [_i("MOV R0, R0", "MOV", sizes=[(4, None)]), _i("BX LR", "BX", sizes=[(4, None)])],
         },
@@ -143,18 +144,20 @@ ARCHS = {
         },
     },
 }
+for _a in ARCHS.values():
+    _a["items"]["DZ"] = _a["items"]["D"] + _a["items"]["Z"]     # data word then a size-variable branch in one block
 TERM = ("J", "R")
 PLACEMENT_REFUSALS = ("Chain-placed-out-of-destination-interval", "Cannot-find-enough-space-to-place-blocks")
 
 # tier -> arch -> parameters
 BOUNDS = {
     "quick": {
-        "x86_32": {"structures": [(1, 0), (2, 0), (3, 0), (1, 1), (2, 1)], "inner": ["N", "D", "Z"], "last": ["N", "D", "J"],
+        "x86_32": {"structures": [(1, 0), (2, 0), (3, 0), (1, 1), (2, 1)], "inner": ["N", "D", "DZ"], "last": ["N", "D", "J"],
                    "free": ["J", "R"], "refs": ["next"], "max_pins": 2, "pair_intervals": ["none", "roomy", "tight"]},
     },
     "thorough": {
         "x86_32": {"structures": [(1, 0), (2, 0), (3, 0), (1, 1), (2, 1), (3, 1), (1, 2), (2, 2)],
-                   "inner": ["N", "N3", "D", "Z"], "last": ["N", "D", "J"], "free": ["J", "R"], "refs": ["next", "first"],
+                   "inner": ["N", "D", "Z", "DZ"], "last": ["N", "D", "J"], "free": ["J", "R"], "refs": ["next", "first"],
                    "max_pins": 3, "pair_intervals": ["none", "roomy", "tight", "tight-1"]},
         "arml": {"structures": [(1, 0), (2, 0), (3, 0), (1, 1), (2, 1), (3, 1)], "inner": ["N", "D", "Z"], "last": ["N", "D", "J"],
                  "free": ["J", "R"], "refs": ["next"], "max_pins": 2, "pair_intervals": ["none", "roomy", "tight"]},
@@ -188,9 +191,13 @@ def labels_of(prog):
     return ["f%d" % i for i in range(f)] + ["c%d" % i for i in range(len(prog["bodies"]) - f)]
 
 
-def ref_of(prog, i):
+def ref_of(prog, i, data=False):
+    """Index of the block whose label block @i references: instructions the next label (cyclically), data words the
+    label after it (so that a data word can refer to a label no instruction of its block refers to)"""
     m = len(prog["bodies"])
-    return 0 if prog["ref"] == "first" else (i + 1) % m
+    if prog["ref"] == "first":
+        return 0
+    return (i + (2 if data else 1)) % m
 
 
 def text_of(prog):
@@ -200,7 +207,7 @@ def text_of(prog):
     for i, kind in enumerate(prog["bodies"]):
         lines.append("%s:" % labs[i])
         for el in a["items"][kind]:
-            lines.append("    " + el[1].format(ref=labs[ref_of(prog, i)]))
+            lines.append("    " + el[1].format(ref=labs[ref_of(prog, i, el[0] == "d")]))
         if kind in TERM and a["split"] and i + 1 < len(prog["bodies"]):
             lines.append(".split")
     return "\n".join(lines) + "\n"
@@ -424,7 +431,10 @@ def parse(prog):
 
 
 def _slug(msg):
-    s = re.sub(r"0x[0-9a-fA-F]+|\d+", "#", str(msg))
+    s = str(msg)
+    if s.startswith("overlapping bytes"):
+        return "overlapping-bytes"
+    s = re.sub(r"0x[0-9a-fA-F]+|\d+", "#", s)
     s = re.sub(r"[^A-Za-z#]+", "-", s).strip("-")
     return s[:48]
 
@@ -507,6 +517,7 @@ def evaluate(prog, pins, ikind, itv, witness, parsed=None):
         patches = asmblock.asm_resolve_final(m.mn, cfg, dst)
     except Diverges as e:
         # deterministic stand-in for "does not terminate" (no wall clock involved)
+        skel = "pins=%s" % pin_skeleton(prog, pins)
         bad("does-not-terminate", "asmblock_final never reaches its fixed point (%s)%s" % (
             e, "" if witness is None else "; the layout %s exists" % {labs[i]: hex(x) for i, x in enumerate(witness["addr"])}))
         return vs, "diverge"
@@ -514,9 +525,10 @@ def evaluate(prog, pins, ikind, itv, witness, parsed=None):
         if witness is not None:
             if itv and _slug(e) in PLACEMENT_REFUSALS:
                 # one raise site; what matters is whether the space the assembler reserved per block (its max_size
-                # estimate: longest encoding of every instruction) exceeds what the block finally needs
+                # estimate: longest encoding of every instruction, plus alignment slack) exceeds what the block finally needs
                 try:
-                    over = any(cfg.loc_key_to_block(k).max_size != sum(witness["sizes"][i]) for i, k in enumerate(keys))
+                    over = any(cfg.loc_key_to_block(k).max_size != sum(witness["sizes"][i]) or
+                               cfg.loc_key_to_block(k).alignment > 1 for i, k in enumerate(keys))
                 except AttributeError:
                     over = None
                 skel = "interval=%s:reserve=%s" % (ikind, {True: "over", False: "exact", None: "unknown"}[over])
@@ -524,6 +536,10 @@ def evaluate(prog, pins, ikind, itv, witness, parsed=None):
                 skel = "pins=same-chain"          # refused before any placement: positions and interval add nothing
             elif _slug(e).startswith("cannot-asm"):
                 skel = "encoder"                  # the instruction encoder refused a reachable displacement
+            elif _slug(e) == "overlapping-bytes" or isinstance(e, KeyError):
+                # final overlap check / two labels meeting at one offset while sizes settle: the interval kind only moves
+                # the un-pinned chains around
+                skel = "pins=%s" % pin_skeleton(prog, pins)
             bad("feasible-but-raised:%s:%s" % (type(e).__name__, _slug(e)),
                 "raised %s(%s) although the layout %s exists" % (
                     type(e).__name__, e, {labs[i]: hex(x) for i, x in enumerate(witness["addr"])}))
@@ -567,14 +583,15 @@ def evaluate(prog, pins, ikind, itv, witness, parsed=None):
         for el in a["items"][kind]:
             if el[0] == "d":
                 size = el[2]
+                dtgt = final[ref_of(prog, i, True)]
                 got = [image.get(at + j) for j in range(size)]
                 if None in got:
                     bad("block-bytes-missing", "data of block %s at %#x is not patched" % (labs[i], at))
                     break
                 val = int.from_bytes(bytes(got), "little")
-                if val != tgt & ((1 << (8 * size)) - 1):
+                if val != dtgt & ((1 << (8 * size)) - 1):
                     bad("data-label-unresolved", "block %s: data word at %#x is %#x, label %s is at %#x"
-                        % (labs[i], at, val, labs[ref_of(prog, i)], tgt))
+                        % (labs[i], at, val, labs[ref_of(prog, i, True)], dtgt))
                 used.update(range(at, at + size))
                 at += size
                 continue
